@@ -49,6 +49,14 @@ var c11Shapes = []struct{ Name, Sub string }{
 	{"url", "https://good.example/o.git"},
 	{"empty", ""},
 	{"eq", "x=y"},
+	// subsections whose components are themselves variable names of the allowed key forms (remote.<x.lfsurl>.url,
+	// remote.<lfsurl>.pushurl, lfs.<x.access>.url, ...): a filter that looks at a fixed index instead of the last part
+	// of the key takes a piece of the NAME for the variable
+	{"name.lfsurl", "x.lfsurl"},
+	{"lfsurl", "lfsurl"},
+	{"name.access", "x.access"},
+	{"access", "access"},
+	{"lfsurl.name", "lfsurl.x"},
 }
 
 const (
